@@ -7,6 +7,7 @@ import Lean.Data.Json
 import SqlairModel.Spec.L1
 import Driver.Json
 import Driver.L2
+import Driver.L3
 import Driver.Rt
 
 open Lean Sqlair
@@ -49,6 +50,8 @@ def handle (line : String) : Json :=
       match ← getStr j "k" with
       | "l1" => handleL1 j
       | "l2" => handleL2 j
+      | "l3prep" => handleL3Prep j
+      | "l3" => handleL3 j
       | "rt" => handleRt j
       | k => throw s!"unknown layer {k}"
     match r with
